@@ -54,7 +54,18 @@ func (c20) Run(e *Env) {
 	c20Mu.Lock()
 	defer c20Mu.Unlock()
 	fab := NewFabric()
-	fab.KeyFn = func(r *HTTPReq) string { return fmt.Sprintf("%d", len(r.Body)) }
+	fab.KeyFn = func(r *HTTPReq) string {
+		if r.Host != "upstream" {
+			return r.Path
+		}
+		obs, _ := decodeBody(r) // canonical content: compressed protobuf bytes are not stable across executions
+		var ms []string
+		for _, o := range obs {
+			ms = append(ms, o.Members...)
+		}
+		sort.Strings(ms)
+		return strings.Join(ms, ",")
+	}
 	oldT := http.DefaultTransport
 	http.DefaultTransport = fab // the manager uses &http.Client{}
 	defer func() { http.DefaultTransport = oldT }()
